@@ -163,7 +163,7 @@ static std::string try_load(std::string const &content, std::string const &dir, 
   { std::ofstream f(path.c_str(), std::ios::binary); f.write(content.data(), content.size()); }
   vproxy *px = new vproxy(2);
   place(*px, 0);
-  if (px->config(CONF) != 0) { fprintf(stderr, "HARNESS-ERROR: loader config rejected\n"); exit(2); }
+  if (px->config(CONF) != 0) { fprintf(stderr, "HARNESS-ERROR: loader config rejected\n"); exit(3); }
   px->set_input_prefix(dir + "/cand");
   cvm::clear_error();
   int rc = px->colvars->setup_input();
@@ -188,7 +188,7 @@ static Recorded record_run(std::string const &dir, bool binary, long first_step,
   vproxy *px = new vproxy(2);
   place(*px, first_step);
   px->set_prefixes(dir + "/cc_out");
-  if (px->config(CONF) != 0) { fprintf(stderr, "HARNESS-ERROR: config rejected: %s\n", px->errtxt.c_str()); exit(2); }
+  if (px->config(CONF) != 0) { fprintf(stderr, "HARNESS-ERROR: config rejected: %s\n", px->errtxt.c_str()); exit(3); }
   if (start_state) {
     std::string p = dir + "/start.colvars.state";
     { std::ofstream f(p.c_str(), std::ios::binary); f.write(start_state->data(), start_state->size()); }
